@@ -222,7 +222,7 @@ def run_unit(u):
                 continue
             for _s in range(8):
                 ast = sels.gen_list(rng, rng.choice([0, 1, 1]), cfg)
-                st, info = cases.compare_select(sv, case, ast)
+                st, info = cases.compare_select(sv, case, ast, cases.respelled(rng, ast, .3))
                 res['evals'] += 1
                 bump('kind:' + kind)
                 if st == 'unspec':
